@@ -353,6 +353,8 @@ pub enum ROp {
     Age(u16),
     /// resolve name #i with all of these ports at the same time
     Burst(u8, Vec<u16>),
+    /// name #i moves: from now on the DNS answers with other addresses
+    Move(u8),
 }
 
 #[derive(Clone, Debug, Serialize, Deserialize)]
@@ -373,7 +375,9 @@ impl Family for ResolveFam {
         let op = prop_oneof![
             8 => (0u8..3, prop_oneof![Just(80u16), Just(443), Just(0), Just(65535), any::<u16>()]).prop_map(|(i, p)| ROp::Resolve(i, p)),
             1 => (any::<[u8; 4]>(), any::<u16>()).prop_map(|(a, p)| ROp::Literal(a, p)),
-            2 => prop_oneof![Just(1u16), Just(30), Just(59), Just(61), Just(120)].prop_map(ROp::Age),
+            // (no combination of these sums to exactly the 60 s lifetime)
+            3 => prop_oneof![Just(7u16), Just(31), Just(58), Just(61), Just(120)].prop_map(ROp::Age),
+            1 => (0u8..3).prop_map(ROp::Move),
             3 => (0u8..3, proptest::collection::vec(prop_oneof![Just(80u16), Just(443), Just(8080), any::<u16>()], 2..5)).prop_map(|(i, p)| ROp::Burst(i, p)),
         ];
         (proptest::collection::vec(1u8..=3, 1..=3), proptest::collection::vec(op, 2..14)).prop_map(|(names, ops)| ResolveCase { names, ops }).boxed()
@@ -392,9 +396,25 @@ impl Family for ResolveFam {
         let ops = case.ops.clone();
         let names2 = names.clone();
         let tables2 = tables.clone();
-        let res: Result<bool, Fail> = d.rt.block_on(async move {
+        let res: Result<(bool, bool), Fail> = d.rt.block_on(async move {
             let mut ports_seen: Vec<Vec<u16>> = vec![Vec::new(); names2.len()];
             let mut multi = false;
+            // model of the cache: per name the age of its entry and the addresses the DNS gave when the
+            // entry was made; `current` is what the DNS answers now. Within the 60 s lifetime a request may
+            // be served from the entry, beyond it the name must be resolved again.
+            let mut current: Vec<Vec<Ipv4Addr>> = tables2.clone();
+            let mut entry: Vec<Option<(u64, Vec<Ipv4Addr>)>> = vec![None; names2.len()];
+            let mut moves = 0u8;
+            let mut moved_then_expired = false;
+            fn allowed(entry: &Option<(u64, Vec<Ipv4Addr>)>, current: &[Ipv4Addr]) -> Vec<Ipv4Addr> {
+                let mut v = current.to_vec();
+                if let Some((age, snap)) = entry {
+                    if *age < 60 {
+                        v.extend(snap.iter().copied());
+                    }
+                }
+                v
+            }
             for op in &ops {
                 match op {
                     ROp::Resolve(i, port) => {
@@ -405,15 +425,27 @@ impl Family for ResolveFam {
                             Ok(Err(e)) => return Err(infra(format!("fake DNS lookup of {} failed: {e}", names2[i]))),
                             Err(_) => return Err(infra("fake DNS lookup timed out")),
                         };
-                        let ok_ip = matches!(a.ip(), IpAddr::V4(v4) if tables2[i].contains(&v4));
+                        let may = allowed(&entry[i], &current[i]);
+                        let ok_ip = matches!(a.ip(), IpAddr::V4(v4) if may.contains(&v4));
                         ensure!(
                             ok_ip && a.port() == *port,
                             "C07.resolve",
-                            "resolve({}, {port}) returned {a}; the name maps to {:?} and port {port} was asked for (ports requested earlier for this name: {:?})",
+                            "resolve({}, {port}) returned {a}; the name maps to {:?}{} and port {port} was asked for (ports requested earlier for this name: {:?})",
                             names2[i],
-                            tables2[i],
+                            current[i],
+                            match &entry[i] {
+                                Some((age, snap)) if *age < 60 && *snap != current[i] => format!(" (a {age} s old cache entry may still say {:?})", snap),
+                                Some((age, snap)) if *snap != current[i] => format!(" (the cache entry with {:?} is {age} s old - beyond the cache lifetime, the name must be resolved again)", snap),
+                                _ => String::new(),
+                            },
                             ports_seen[i]
                         );
+                        if matches!(&entry[i], Some((age, snap)) if *age >= 60 && *snap != current[i]) {
+                            moved_then_expired = true;
+                        }
+                        if !matches!(&entry[i], Some((age, _)) if *age < 60) {
+                            entry[i] = Some((0, current[i].clone()));
+                        }
                         if !ports_seen[i].is_empty() && !ports_seen[i].contains(port) {
                             multi = true;
                         }
@@ -434,17 +466,22 @@ impl Family for ResolveFam {
                                 Ok(Err(e)) => return Err(infra(format!("fake DNS lookup of {} failed: {e}", names2[i]))),
                                 Err(_) => return Err(infra("fake DNS lookup timed out")),
                             };
-                            let ok_ip = matches!(a.ip(), IpAddr::V4(v4) if tables2[i].contains(&v4));
+                            let may = allowed(&entry[i], &current[i]);
+                            let ok_ip = matches!(a.ip(), IpAddr::V4(v4) if may.contains(&v4));
                             ensure!(
                                 ok_ip && a.port() == port,
                                 "C07.resolve",
-                                "resolve({}, {port}) - one of {} simultaneous lookups with ports {:?} - returned {a}; the name maps to {:?}",
+                                "resolve({}, {port}) - one of {} simultaneous lookups with ports {:?} - returned {a}; the name maps to {:?} (cache entry: {:?})",
                                 names2[i],
                                 ports.len(),
                                 ports,
-                                tables2[i]
+                                current[i],
+                                entry[i]
                             );
                             ports_seen[i].push(port);
+                        }
+                        if !matches!(&entry[i], Some((age, _)) if *age < 60) {
+                            entry[i] = Some((0, current[i].clone()));
                         }
                         multi = true;
                     }
@@ -458,8 +495,20 @@ impl Family for ResolveFam {
                             r.map_err(|e| e.to_string())
                         );
                     }
+                    ROp::Move(i) => {
+                        let i = idx((*i as u16) << 8, names2.len()).min(names2.len() - 1);
+                        moves += 1;
+                        let n = current[i].len() as u8;
+                        let addrs: Vec<Ipv4Addr> = (0..n).map(|k| Ipv4Addr::new(127, 78, moves.wrapping_mul(7).wrapping_add(k), 1 + i as u8)).collect();
+                        d.table.lock().unwrap().insert(names2[i].clone(), addrs.clone());
+                        current[i] = addrs;
+                    }
                     ROp::Age(s) => {
-                        anytls_rs::util::dns_cache::verif_age_cache(std::time::Duration::from_secs(*s as u64)).await;
+                        // (only this case's names: the cache is process-wide and other workers' cases run side by side)
+                        anytls_rs::util::dns_cache::verif_age_hosts(&names2, std::time::Duration::from_secs(*s as u64)).await;
+                        for e in entry.iter_mut().flatten() {
+                            e.0 += *s as u64;
+                        }
                         for p in ports_seen.iter_mut() {
                             if *s > 60 {
                                 p.clear();
@@ -468,9 +517,10 @@ impl Family for ResolveFam {
                     }
                 }
             }
-            Ok(multi)
+            Ok((multi, moved_then_expired))
         });
-        let multi = res?;
+        let (multi, moved_then_expired) = res?;
+        out.class_if(moved_then_expired, "name-moved-and-entry-expired");
         out.nt(multi);
         out.class_if(multi, "same-host-other-port-in-ttl");
         out.class_if(case.ops.iter().any(|o| matches!(o, ROp::Age(s) if *s > 60)), "aged-beyond-ttl");
@@ -598,7 +648,7 @@ impl Family for DialFam {
                     seen[ni].push(*lb);
                     if let Some((at, secs)) = case.age_after {
                         if at as usize == k {
-                            anytls_rs::util::dns_cache::verif_age_cache(std::time::Duration::from_secs(secs as u64)).await;
+                            anytls_rs::util::dns_cache::verif_age_hosts(&[name_a.clone(), name_b.clone()], std::time::Duration::from_secs(secs as u64)).await;
                             if secs > 60 {
                                 seen = [Vec::new(), Vec::new()];
                             }
